@@ -47,7 +47,8 @@ func pbfScan(data []byte, o scanOpts) (*osmpbf.Header, []osm.Object, error) {
 	defer s.Close()
 	h, herr := s.Header()
 	if herr != nil {
-		return h, nil, herr
+		// what the scan reports is Err(): the end of input met by the header read is the regular end
+		return h, nil, s.Err()
 	}
 	var objs []osm.Object
 	for s.Scan() {
